@@ -44,8 +44,16 @@ JudgeDecBlock(e) ==
           DecWords(<<v \div 4096, v % 4096>>) # <<e.b0, e.b1, e.b2lo + (v - e.lo)>>,
        "length-generic decoder: a word pair is not decoded as specified")
 
+\* the library's word list: 4096 distinct, non-empty, lower-case, whitespace-free words
+JudgeWordList(e) ==
+  When(Len(WordList) # 4096, "word list does not have 4096 entries")
+  \o When(Cardinality(WordSet) # Len(WordList), "word list contains a duplicate word: two 12-bit values share a mnemonic word")
+  \o When(\E i \in 1..Len(WordList) : Len(WordList[i]) = 0 \/ \E j \in 1..Len(WordList[i]) : WordList[i][j] \notin 97..122,
+          "word list contains a word that is empty or not all lower-case letters")
+
 Judge(e) ==
-  CASE e.ev = "enc" -> JudgeEnc(e)
+  CASE e.ev = "wordlist" -> JudgeWordList(e)
+    [] e.ev = "enc" -> JudgeEnc(e)
     [] e.ev = "dec" -> JudgeDec(e)
     [] e.ev = "encblock" -> JudgeEncBlock(e)
     [] e.ev = "decblock" -> JudgeDecBlock(e)
@@ -60,6 +68,4 @@ K == INSTANCE TraceKit WITH Judge <- Judge, Drift <- DriftOf
 Spec == K!Spec
 View == K!View
 
-\* word-list facts, checked in the initial state
-WordListFacts == WordListOK(WordList)
 =============================================================================
